@@ -183,7 +183,7 @@ def gen_stmt(rng, structured, rich, opts=None, configured=None):
         val = rng.choice(["7", "0", "12", "4294967295", "00042", str(rng.randint(1, 99999))]) if kind == "int" else \
             rng.choice(['"7"', "x", "id", "4294967296", "7u32", "1_000", "-1" if False else "seven", "99999999999"])
         st["refkv"] = {"value": val, "index": rng.randint(0, len(kvs)), "mod": rng.choice(["", "", ":?"]),
-                       "gap_after": rng.choice(["", "", " ", "  ", "\n    "])}
+                       "gap_after": rng.choice(["", "", " ", "  ", "\n    ", " /* c */", "/* id */ ", " // c\n    ", " //* odd\n"])}
     msg = rng.choice(MESSAGES)
     if rng.random() < 0.3:
         msg = "[ref: %d] %s" % (rng.choice([0, 1, 7, 4294967295, rng.randint(1, 10 ** 6)]), msg)
